@@ -126,3 +126,153 @@ def run_c16(c, ctx):
             devs.append(dev('wrongly-accepted:sliced-injection-outside-dimension-bounds', dict(text=text, data=repr(res.data())[:200])))
     return outcome(classes=classes, nontrivial=True, fp='e16 ' + text, dev=devs, monitors={'edge_programs': 1},
                    sample=dict(text=text, expected=('accepted', part) if within else 'rejected'))
+
+
+# ------------------------------------------------------------------------------------------------ C13: table cells
+
+CELLS = ['C:\\data\\run1.h5', '\\alpha', "O'Brien", 'x#y', 'a=b', 'semi;colon', 'plain', 'v1.5', 'two words', 'tab\\t', 'q?', 'back\\\\slash', "it's"]
+
+
+def gen_c13(rng):
+    nrow = rng.randint(1, 4)
+    cols = rng.sample(['id int', 'path str', 'ok bool', 'label str', 'w float'], rng.randint(2, 4))
+    if not any(c.endswith('str') for c in cols):
+        cols.append('name str')
+    rows = []
+    for r in range(nrow):
+        row = []
+        for c in cols:
+            ty = c.split()[1]
+            if ty == 'int':
+                row.append(rng.randint(-50, 50))
+            elif ty == 'float':
+                row.append(rng.choice([1.5, -0.25, 3.0, 1e3]))
+            elif ty == 'bool':
+                row.append(rng.random() < 0.5)
+            else:
+                row.append(rng.choice(CELLS))
+        rows.append(row)
+    return dict(edge='c13-table', cols=cols, rows=rows, blank_lines=rng.random() < 0.4, indent=rng.choice([0, 2]))
+
+
+def run_c13(c, ctx):
+    def cell(v):
+        if isinstance(v, bool):
+            return 'true' if v else 'false'
+        if isinstance(v, str):
+            return '"%s"' % v if ' ' in v else v
+        return repr(v)
+    head = ['grp'] if c['indent'] else []
+    ind = ' ' * c['indent']
+    L = head + ['%st table = """' % ind] + c['cols'] + ['']
+    for r in c['rows']:
+        L.append(' '.join(cell(v) for v in r))
+        if c['blank_lines']:
+            L.append('')
+    L.append('"""')
+    text = '\n'.join(L) + '\n'
+    prefix = 'grp.t.' if c['indent'] else 't.'
+    exp = {}
+    for j, col in enumerate(c['cols']):
+        exp[prefix + col.split()[0]] = [r[j] for r in c['rows']]
+    classes = ['edge:table-cells', 'edge:table-cell-special-characters'] if any(isinstance(v, str) and v in CELLS[:5] + CELLS[9:] for r in c['rows'] for v in r) else ['edge:table-cells']
+    devs = []
+    st, res, keep = parse(ctx, text, 'e13')
+    if st != 'ok':
+        devs.append(dev('table-with-literal-cells-rejected', dict(text=text, exc=repr(res)[:200])))
+    else:
+        d = res.data()
+        d = {k: (v.tolist() if hasattr(v, 'tolist') else v) for k, v in d.items()}
+        if list(d) != list(exp):
+            devs.append(dev('table-columns-or-order-differ', dict(text=text, observed=list(d), expected=list(exp))))
+        else:
+            for k in exp:
+                if d[k] != exp[k]:
+                    devs.append(dev('table-cell-not-the-literal-written', dict(text=text, column=k, observed=d[k], expected=exp[k])))
+                    break
+    return outcome(classes=classes, nontrivial=True, fp='e13 ' + text, dev=devs, monitors={'edge_programs': 1}, sample=dict(text=text, expected=exp))
+
+
+# ------------------------------------------------------------------------------------------------ C16: constraints travel with imports
+
+def gen_c16_import(rng):
+    kind = rng.choice(['condition', 'condition', 'format', 'options'])
+    return dict(edge='c16-import', kind=kind, how=rng.choice(['star', 'single']), ok=rng.random() < 0.5, grouped_twice=rng.random() < 0.3,
+                lim=rng.choice([10, 25, 8]), remote=rng.random() < 0.3)
+
+
+def run_c16_import(c, ctx):
+    import os, tempfile, shutil
+    kind = c['kind']
+    if kind == 'condition':
+        src = ['template', '  size float = 5 cm', '    !condition ("{?} < %d cm")' % c['lim']]
+        good, bad, name = '7 cm', '%d cm' % (c['lim'] * 5), 'size'
+    elif kind == 'format':
+        src = ['template', '  size str = ab12', '    !format "[a-z]+[0-9]+"']
+        good, bad, name = 'xy7', 'XY', 'size'
+    else:
+        src = ['template', '  size int = 1', '    !options [1,2,3]']
+        good, bad, name = '3', '9', 'size'
+    tmpd = None
+    top = 'outer.box' if c['grouped_twice'] else 'box'
+    req = '{%s?template.*}' if c['how'] == 'star' else '{%s?template.size}'
+    if c['remote']:
+        tmpd = tempfile.mkdtemp(prefix='vt_e16_')
+        with open(os.path.join(tmpd, 'r.dip'), 'w') as f:
+            f.write('\n'.join(src) + '\n')
+        L = ['$source r = %s' % os.path.join(tmpd, 'r.dip')]
+        req = req % 'r'
+    else:
+        L = list(src)
+        req = req % ''
+    if c['grouped_twice']:
+        L += ['outer', '  box', '    ' + req]
+    else:
+        L += ['box', '  ' + req]
+    L.append('%s.%s = %s' % (top, name, good if c['ok'] else bad))
+    text = '\n'.join(L) + '\n'
+    classes = ['edge:constraint-on-imported-copy', 'edge:import-' + kind, 'edge:import-' + ('remote' if c['remote'] else 'local')]
+    devs = []
+    try:
+        st, res, keep = parse(ctx, text, 'e16i')
+    finally:
+        if tmpd:
+            shutil.rmtree(tmpd, ignore_errors=True)
+    if c['ok']:
+        if st != 'ok':
+            devs.append(dev('wrongly-rejected:modification-of-imported-copy-satisfying-its-%s' % kind, dict(text=text, exc=repr(res)[:200])))
+    else:
+        if st == 'ok':
+            devs.append(dev('wrongly-accepted:modification-of-imported-copy-violating-its-%s' % kind, dict(text=text, data=repr(res.data())[:200])))
+    return outcome(classes=classes, nontrivial=True, fp='e16i ' + text, dev=devs, monitors={'edge_programs': 1},
+                   sample=dict(text=text, expected='accepted' if c['ok'] else 'rejected'))
+
+
+# ------------------------------------------------------------------------------------------------ C16: int options in another unit
+
+def gen_c16_intopt(rng):
+    return dict(edge='c16-intopt', form=rng.choice(['lines', 'list']), pick=rng.choice(['opt-small', 'opt-frac', 'opt-own-unit', 'truncated-1', 'truncated-0', 'other']),
+                scale=rng.choice([('km', 'm', 1000), ('m', 'cm', 100), ('kg', 'g', 1000)]), dt=rng.choice(['int', 'int', 'float']))
+
+
+def run_c16_intopt(c, ctx):
+    big, small, k = c['scale']
+    # options 0.5, 1.5 (written in the small unit) and 2 (own unit) of an int node given in the big unit
+    L = ['range %s = 2 %s' % (c['dt'], big)]
+    if c['form'] == 'list':
+        L += ['  !options [%d,%d] %s' % (k // 2, 3 * k // 2, small), '  = 2 %s' % big]
+    else:
+        L += ['  = %d %s' % (k // 2, small), '  = %d %s' % (3 * k // 2, small), '  = 2 %s' % big]
+    val, ok = {'opt-small': ('%d %s' % (k // 2, small), True), 'opt-frac': ('%d %s' % (3 * k // 2, small), True), 'opt-own-unit': ('2 %s' % big, True),
+               'truncated-1': ('1 %s' % big, False), 'truncated-0': ('0 %s' % big, False), 'other': ('%d %s' % (k, small), False)}[c['pick']]
+    L.append('range = %s' % val)
+    text = '\n'.join(L) + '\n'
+    classes = ['edge:int-options-in-another-unit', 'edge:int-option-' + ('member' if ok else 'non-member')]
+    devs = []
+    st, res, keep = parse(ctx, text, 'e16o')
+    if ok and st != 'ok':
+        devs.append(dev('wrongly-rejected:option-given-in-another-unit', dict(text=text, exc=repr(res)[:200])))
+    if not ok and st == 'ok':
+        devs.append(dev('wrongly-accepted:value-equal-to-a-truncated-option', dict(text=text, data=repr(res.data())[:160])))
+    return outcome(classes=classes, nontrivial=True, fp='e16o ' + text, dev=devs, monitors={'edge_programs': 1},
+                   sample=dict(text=text, expected='accepted' if ok else 'rejected'))
